@@ -1,12 +1,13 @@
 #!/usr/bin/env python3
 """Writes the prompt given to a sensitivity sub-agent: the text of ONE property and its scratch worktree, nothing from /verif.
-usage: mkprompt.py <Cxx> <worktree-dir> <mode>   (mode: plain | hard | cross)"""
+usage: mkprompt.py <Cxx> <worktree-dir> <mode>   (mode: plain | hard | cross | pair)"""
 import json, sys
 pid, wt, mode = sys.argv[1], sys.argv[2], sys.argv[3]
 p = next(json.loads(l) for l in open('/verif/properties.jsonl') if json.loads(l)['id'] == pid)
 extra = {
  'plain': '',
  'hard': "HARD MODE: assume the harness under evaluation already checks this property with bounded-exhaustive enumeration of small inputs and with randomly generated inputs of small to medium size through the obvious API. Aim for changes such a harness is likely to MISS: they should need large sizes or counts, particular magic values or boundaries (powers of two, 16/32/64-element thresholds, specific code point ranges), a rarely used public API route, a particular combination of options, or a specific multi-step history.\n",
+ 'pair': "TWO-COOPERATING-SITES MODE: assume the harness under evaluation already checks this property thoroughly with enumerated small inputs and random inputs of all sizes through every public route. Each of your changes must consist of TWO edits at DIFFERENT sites (different functions, ideally different files) such that EITHER EDIT ALONE leaves the property intact (each is a plausible, locally harmless refactor: a changed default, a relaxed or tightened helper, a reordered step, a cached value, a different-but-equivalent-looking representation) and only BOTH TOGETHER break the property - and even then only for inputs / option combinations / operation histories that are unusual (a particular conjunction of two features of the input, a particular pair of options, a value that went through two particular steps in order). In NOTES.md say why each edit alone is harmless, and verify that claim with your demonstration (demo passes with only edit 1, passes with only edit 2, fails with both).\n",
  'cross': "CROSS-MODULE MODE: assume the harness under evaluation already checks this property thoroughly through the most obvious API and module. Put each defect OUTSIDE the module that is most obviously responsible for the property (a helper, a conversion, a trait impl, a constructor, an iterator, a feature-gated function, a dependency-facing shim elsewhere in src/), so that the property only breaks for values/inputs that arrive through ONE particular construction route, entry point, trait method or post-processing step (e.g. a value that was cloned, extended, sorted, canonicalized, converted, collected, taken, or parsed through a specific entry point before the property is exercised). The property text defines what is in scope; stay inside it.\n",
 }[mode]
 print(f"""You are helping to evaluate a test harness by writing SEEDED DEFECTS for a Rust library (timothee-haudebourg/json-syntax, a strict JSON parser/printer/value model). You work ONLY inside your own scratch git worktree: {wt} (a checkout of the library; `src/`, `tests/`, `Cargo.toml`). Do NOT read, write or run anything under /repo or /verif, and do not look for other harnesses on this machine: your work must be independent. There is no network: always use `CARGO_NET_OFFLINE=true cargo ... --offline`. Other jobs share this machine: limit parallelism with `-j 4`.
